@@ -62,9 +62,12 @@ def gen_value(types, t, length, is_padded, tag, cfg, san, mode, scope):
     return gen_text(tag, L, t[1], is_padded, san, mode)
 
 
-def gen_unit(types, instrs, tag, cfg, san, mode):
+def gen_unit(types, instrs, tag, cfg, san, mode, st=None):
+    """st: optional-presence state shared with the enclosing unit (a switch case continues its parent's chain of
+    optional fields: once one is absent, every later one - inside the case and after the switch - is absent too)"""
     tree = {}
-    st = {"present": True}
+    if st is None:
+        st = {"present": True}
     gen_instrs(types, instrs, tree, tag, cfg, san, mode, st, scope_of(instrs, {}))
     return tree
 
@@ -155,7 +158,7 @@ def gen_instrs(types, instrs, tree, tag, cfg, san, mode, st, scope):
             if chosen is None or len(chosen[3]) == 0:
                 tree[fld + "_data"] = None
             else:
-                data = gen_unit(types, chosen[3], tag + "." + fld + "_data", cfg, san, mode)
+                data = gen_unit(types, chosen[3], tag + "." + fld + "_data", cfg, san, mode, st)
                 data["__case__"] = chosen[2]
                 tree[fld + "_data"] = data
 
